@@ -54,7 +54,7 @@ def who_may_write(ctx, rule, instance, adt, field, allowed, floor=None, crate='q
 
 def who_may_construct(ctx, rule, instance, adt, variant, allowed, floor=None, crate='quinn_proto', pred=None, why=''):
     """P3: aggregate construction sites of ADT(::variant) [satisfying pred] lie in `allowed`."""
-    cs = constructions(ctx.facts, adt, variant, crate=crate)
+    cs = [c for c in constructions(ctx.facts, adt, variant, crate=crate) if not c.body.trait.endswith('::Clone')]
     if pred:
         cs = [c for c in cs if pred(c)]
     for c in cs:
@@ -267,20 +267,24 @@ def guard_error(ctx, rule, instance, body, relpred, code=None, variant=None, cal
 
 
 def guard_protects(ctx, rule, instance, body, relpred, sites, what='', need_dom=True):
-    """P4+edge: the protected sites (blocks) are dominated by the guard and unreachable from its violating
-    edge without re-evaluating the guard."""
+    """P4+edge: every protected site (block) has a guard with the stated relation that dominates it and from whose
+    violating edge it is unreachable without re-evaluating the guard.  (need_dom is kept for call compatibility.)"""
     edges = guard_edges(ctx, body, relpred)
     if not edges:
         ctx.bad(rule, instance + '/guard_missing', body, body.where(), '%s: no branch with the required relation found' % what)
         return
     sites = [s for s in sites if s in body.live_blocks()]
-    for br, truth, tgt in edges:
-        reach = body.reachable_from(tgt, avoid=[br.bb])
-        bad = [s for s in sites if s in reach]
-        nd = [s for s in sites if need_dom and not body.dominates(br.bb, s)]
-        ctx.check(not bad and not nd, rule, instance, body, br.where(),
-                  '%s: %d protected site(s) only reachable over the pass edge' % (what, len(sites)),
-                  '%s: protected site blocks %s reachable on the violating edge / %s not dominated by the guard' % (what, bad, nd))
+    bad = []
+    for s in sites:
+        covered = False
+        for br, truth, tgt in edges:
+            if body.dominates(br.bb, s) and s not in body.reachable_from(tgt, avoid=[br.bb]):
+                covered = True
+        if not covered:
+            bad.append(s)
+    br0 = edges[0][0]
+    ctx.check(not bad, rule, instance, body, br0.where(), '%s: %d protected site(s) only reachable over the pass edge of a dominating guard' % (what, len(sites)),
+              '%s: protected site blocks %s are not protected by a dominating guard with this relation' % (what, bad))
 
 
 def store_values(ctx, adt, field, in_fn=None, crate='quinn_proto'):
@@ -295,3 +299,28 @@ def store_values(ctx, adt, field, in_fn=None, crate='quinn_proto'):
         elif w.kind == 'callresult':
             out.append((w, d.call_desc(w.call, 0)))
     return out
+
+
+def local_defs_desc(ctx, body, name):
+    """descriptors of every value assigned to the user-named local `name` (whole-local stores and call results)"""
+    out = []
+    d = describer(ctx.facts, body)
+    for l, (ty, nm) in enumerate(body.locals):
+        if nm != name:
+            continue
+        for df in body.defs_of(l):
+            if df[0] == 'stmt':
+                out.append(d.rvalue(df[3], df[1], df[2], 0))
+            elif df[0] == 'call':
+                out.append(d.call_desc(df[2], 0))
+    return out
+
+
+def flat(d):
+    """flatten phi alternatives"""
+    if d[0] == 'phi':
+        r = []
+        for x in d[1]:
+            r.extend(flat(x))
+        return r
+    return [d]
